@@ -62,8 +62,15 @@ impl ExpiryCell {
 #[verifier::external_body]
 pub struct SectorCell { _p: () }
 impl SectorCell {
+    // the head sector has been assigned (it is written once, 0 -> the allocated sector, and never reset: a monotone fact,
+    // so a non-zero load establishes it for good; a zero load says nothing)
+    pub uninterp spec fn assigned(&self) -> bool;
     #[verifier::external_body]
-    pub fn load(&self, o: Ordering) -> u64 { unimplemented!() }
+    pub fn load(&self, o: Ordering) -> (v: u64)
+        ensures v != 0 ==> self.assigned(),
+    {
+        unimplemented!()
+    }
 }
 
 pub struct Record {
@@ -97,6 +104,7 @@ impl Record {
     #[verifier::external_body]
     pub fn value_source(&self) -> (s: Option<Arc<Record>>)
         ensures s matches Some(p) ==> (rec_source(self) == Some(p) && p.key@.len() <= 0x10_0000 && p.value_len <= 0x1000_0000),
+            s is None ==> rec_source(self) is None,
     {
         unimplemented!()
     }
